@@ -98,6 +98,8 @@ def run(ctx):
     names_all = [str(k) for k in EvtGenName2PDGIDBiMap._to_map.keys()]
     n_docs = 300 if tier == "quick" else 3000
 
+    hist = [0]
+
     def one(text, label, doc=None):
         try:
             wire = conv_tree(raw_parse(text))
@@ -113,6 +115,21 @@ def run(ctx):
                 err = None
             except Exception as e:
                 impl, err = None, err_class(e)
+            if cc and impl is not None and hist[0] % 3 == 0:
+                # the same parser object parsed first with the switch off, then again in the ordinary way: the second parse is a
+                # parse like any other
+                try:
+                    p2 = DecFileParser.from_string(text)
+                    p2.parse(include_ccdecays=False)
+                    p2.parse()
+                    again = impl_tables(p2)
+                except Exception as e:
+                    again = "error: " + err_class(e)
+                if again != impl:
+                    res.violation("parse(include_ccdecays=False) followed by parse() on the same object gives other tables than parse() alone",
+                                  dict(case, history=["parse(include_ccdecays=False)", "parse()"]), impl=again if isinstance(again, str) else [m for m, _ in again],
+                                  model=[m for m, _ in impl], clause="which tables exist (precedence of Decay, CDecay without source, source untouched)")
+            hist[0] += 1
             n_decay = len({s[1] for s in wire if s[0] == "decay"}) + len({s[1] for s in wire if s[0] == "copydecay"})
             created = impl is not None and cc and len(impl) > n_decay - 0 and any(s[0] == "cdecay" for s in wire)
             res.case(canon_json([text, cc]) if created else None, {"text": text[:500], "mothers": [m for m, _ in impl]} if created and len(res.samples) < 3 else None)
